@@ -106,6 +106,30 @@ func genRefNode(t *rapid.T, depth, width int, rooted bool) *refNode {
 func genC15(t *rapid.T) c15Case {
 	c := c15Case{Target: c15Own}
 	c.Ref = genRefNode(t, rapid.IntRange(0, 4).Draw(t, "depth"), rapid.IntRange(1, 4).Draw(t, "width"), rapid.IntRange(0, 5).Draw(t, "toprooted") > 0)
+	// the statement says "of any depth": a fifth of the trees are wrapped into a narrow chain of 1-12 further bracket levels
+	if rapid.IntRange(0, 4).Draw(t, "chain") == 0 {
+		levels := rapid.IntRange(1, 12).Draw(t, "chainlevels")
+		for i := 0; i < levels; i++ {
+			outer := &refNode{Path: rapid.SampledFrom(c15Paths).Draw(t, "chainpath"), Name: rapid.SampledFrom(c15Names).Draw(t, "chainname")}
+			leaf := func(l string) *refNode {
+				if rapid.Bool().Draw(t, l+"rooted") {
+					return &refNode{Path: rapid.SampledFrom(c15Paths).Draw(t, l+"path"), Name: rapid.SampledFrom(c15Names).Draw(t, l+"name")}
+				}
+				return &refNode{Name: rapid.SampledFrom(c15Builtins).Draw(t, l+"builtin")}
+			}
+			switch rapid.IntRange(0, 3).Draw(t, "chainshape") {
+			case 0:
+				outer.Args = []*refNode{c.Ref}
+			case 1:
+				outer.Args = []*refNode{leaf("before"), c.Ref}
+			case 2:
+				outer.Args = []*refNode{c.Ref, leaf("after")}
+			default:
+				outer.Args = []*refNode{leaf("before"), c.Ref, leaf("after")}
+			}
+			c.Ref = outer
+		}
+	}
 	c.Via = rapid.SampledFrom([]string{"string", "string", "typename", "expose"}).Draw(t, "via")
 	np := rapid.IntRange(0, 3).Draw(t, "npre")
 	for i := 0; i < np; i++ {
@@ -473,7 +497,7 @@ func TestC15(t *testing.T) {
 	r := ev.Begin(t, ev.Meta{
 		ID:    "C15",
 		Level: "exploration",
-		Rule: "reference trees from ref ::= [path '.'] ident ['[' ref {',' ref} ']'] with depth <= 4, width <= 4, paths from a pool of 33 " +
+		Rule: "reference trees from ref ::= [path '.'] ident ['[' ref {',' ref} ']'] with depth <= 4, width <= 4 (a fifth wrapped into a narrow chain of up to 12 further bracket levels), paths from a pool of 33 " +
 			"(std, dotted hosts, vN, apis/domain, punctuation variants, the target package), printed by the harness and fed to ParseTypeRef, " +
 			"ParseRef, Ref, PkgImportPathAndExpose and snippet.ID/PkgExpose; non-trivial = depth >= 2 and >= 2 arguments at some level; " +
 			"distinct by JSON encoding; the enumerate sub lists every tree up to a node bound over 6 labels",
